@@ -183,6 +183,130 @@ def dictDel (h : Heap) (to : Id) (name : String) : Heap :=
   | none => h
   | some (_, _, d, a) => setBody h to (.sub (d.filter (·.1 != name)) a)
 
+/-! ### writes through a whole path (path.go cfgPath.SetValue; getset.go SetChild) -/
+
+inductive Seg where
+  | name (s : String)
+  | idx (i : Nat)
+  deriving Repr, DecidableEq, Inhabited
+
+def Seg.str : Seg → String
+  | .name s => s
+  | .idx i => idxName i
+
+def isNilBody (n : Node) : Bool := match n.body with | .prim "nil" _ => true | _ => false
+
+def plainKind (k : String) : Bool := k == "bool" || k == "int" || k == "uint" || k == "float" || k == "string"
+
+/-- phase 1 of SetValue: `stop node rest` - the rest of the path is built below `node`; `err` - SetValue reports an error
+and nothing changes; `unmodelled` - the walk leads through an expression (it would be evaluated) or a dangling link -/
+inductive Walk where
+  | stop (node : Id) (rest : List Seg)
+  | err
+  | unmodelled
+  deriving Repr, DecidableEq
+
+def walkSet : Heap → Id → List Seg → Walk
+  | _, id, [] => .stop id []
+  | _, id, [s] => .stop id [s]
+  | h, id, s :: s2 :: r =>
+    match h[id]? with
+    | none => .unmodelled
+    | some n =>
+      match n.body with
+      | .sub d a =>
+        let c? : Option Id := match s with
+          | .name k => (d.find? (·.1 == k)).map (·.2)
+          | .idx i => a[i]?
+        (match c? with
+         | none => .stop id (s :: s2 :: r)                       -- missing: built from here
+         | some c =>
+           match h[c]? with
+           | none => .unmodelled
+           | some cn => if isNilBody cn then .stop id (s :: s2 :: r) else walkSet h c (s2 :: r))
+      | .prim k _ =>
+        if !plainKind k then .unmodelled
+        else match s with
+          | .idx 0 => walkSet h id (s2 :: r)                      -- idxField.GetValue: a primitive is its own element 0
+          | _ => .err                                             -- raiseExpectedObject
+
+/-- store `c` (which carries its context) under a segment of `to` (namedField / idxField.SetValue) -/
+def storeSeg (h : Heap) (to : Id) (s : Seg) (c : Id) : Heap :=
+  match s with
+  | .name k =>
+    (match getSub h to with
+     | none => h
+     | some (_, _, d, a) => setBody h to (.sub (dictSet d k c) a))
+  | .idx i => setAt h to i c
+
+/-- what is stored at the end of the path: a new primitive (Set*) or an existing config (SetChild) -/
+inductive Leaf where
+  | prim (kind val : String)
+  | child (c : Id)
+  deriving Repr, DecidableEq
+
+def placeLeaf (h : Heap) (to : Id) (s : Seg) : Leaf → Heap
+  | .prim k v => storeSeg (h ++ [⟨some to, s.str, .prim k v⟩]) to s h.length
+  | .child c => storeSeg (attachCtx h c to s.str) to s c
+
+/-- phases 2 and 3: a new object per missing segment, each stored under its name in the one above, the value in the last -/
+def setChain : Heap → Id → List Seg → Leaf → Heap
+  | h, _, [], _ => h
+  | h, to, [s], l => placeLeaf h to s l
+  | h, to, s :: s2 :: r, l =>
+    let c := h.length
+    setChain (storeSeg (h ++ [⟨some to, s.str, .sub [] []⟩]) to s c) c (s2 :: r) l
+
+inductive SetRes where
+  | ok (h : Heap)
+  | err                 -- the call reports an error; no node reachable from a config changes
+  | unmodelled
+  deriving Repr, DecidableEq
+
+def setPathH (h : Heap) (root : Id) (segs : List Seg) (l : Leaf) : SetRes :=
+  match walkSet h root segs with
+  | .unmodelled => .unmodelled
+  | .err => .err
+  | .stop to rest =>
+    match getSub h to with
+    | none => .err                                                -- raiseExpectedObject
+    | some _ => .ok (setChain h to rest l)
+
+/-- is `anc` on the stored parent chain of `id` (or `id` itself): `for p := c; p != nil; p = p.Parent()` -/
+def onParentChain (h : Heap) : Nat → Id → Id → Bool
+  | 0, _, _ => false
+  | n+1, id, anc =>
+    if id == anc then true else
+    match h[id]? with
+    | some nd => (match nd.parent with
+      | some p => onParentChain h n p anc
+      | none => false)
+    | none => false
+
+/-- getset.go Config.holds: is `target` the config `c` or stored somewhere below it -/
+def holdsH : Nat → Heap → Id → Id → Bool
+  | 0, _, _, _ => false
+  | n+1, h, c, target =>
+    c == target ||
+    (match h[c]? with
+     | some nd => nd.body.children.any (fun x => holdsH n h x target)
+     | none => false)
+
+/-- path.go cfgPath.container: the existing config the value (or the first missing object) will be stored in -/
+def containerOf (h : Heap) (root : Id) (segs : List Seg) : Option Id :=
+  match walkSet h root segs with
+  | .stop to _ => if (getSub h to).isSome then some to else none
+  | _ => none
+
+/-- getset.go SetChild: refused (ErrCyclicReference) when the child is the receiver, one of the parents the receiver or
+the container know of, or holds the container -/
+def setChildH (fuel : Nat) (h : Heap) (c : Id) (segs : List Seg) (child : Id) : SetRes :=
+  let cyc := onParentChain h fuel c child ||
+    (match containerOf h c segs with
+     | some t => onParentChain h fuel t child || holdsH fuel h child t
+     | none => false)
+  if cyc then .err else setPathH h c segs (.child child)
+
 /-! ### reads -/
 
 /-- context.path: the field names along the stored parent links (root first); empty names are skipped like in Go -/
@@ -226,5 +350,106 @@ def compareKeys (old new : List String) : Diff :=
     remove := (dedup old).filter (fun k => !new.contains k) }
 
 def Diff.hasChanged (d : Diff) : Bool := !d.add.isEmpty || !d.remove.isEmpty
+
+end Ucfg.Forest
+
+namespace Ucfg.Forest
+
+/-! ### Merge on the heap (merge.go mergeConfig / mergeConfigDict / mergeConfigArr at the identity level)
+
+What is stored is always a copy of the source's node; an object of the destination that meets an object of the source is
+merged in place.  `none`: the fuel does not cover the trees, a link dangles, or a null meets a value (which value wins is
+the content model's business, Model/Merge.lean; the identity model stops there).  The fuel ticks on every setting. -/
+
+inductive ArrPol where
+  | merge | replace | replaceArr | append | prepend
+  deriving DecidableEq, Repr, Inhabited
+
+def isNilNode (n : Node) : Bool := match n.body with | .prim "nil" _ => true | _ => false
+def isSubNode (n : Node) : Bool := match n.body with | .sub .. => true | _ => false
+
+/-- the list part under a copying policy -/
+def mergeListCopy (cf : Nat) (pol : ArrPol) (h : Heap) (to : Id) (fa : List Id) : Option Heap :=
+  match pol with
+  | .replace | .replaceArr =>
+    if fa.isEmpty then some h
+    else match getSub h to with
+      | some (_, _, td, _) => appendCpy cf (setBody h to (.sub td [])) to fa
+      | none => none
+  | .prepend =>
+    if fa.isEmpty then some h
+    else match getSub h to with
+      | some (_, _, td, ta) =>
+        (match appendCpy cf (setBody h to (.sub td [])) to fa with
+         | some h1 => appendCpy cf h1 to ta
+         | none => none)
+      | none => none
+  | _ => appendCpy cf h to fa
+
+mutual
+/-- mergeConfig(to, from) -/
+def mergeH : Nat → Nat → ArrPol → Heap → Id → Id → Option Heap
+  | 0, _, _, _, _, _ => none
+  | n+1, cf, pol, h, to, frm =>
+    match getSub h to, getSub h frm with
+    | some (_, _, _, ta0), some (_, _, fd, fa) =>
+      let h0 := if !fd.isEmpty && pol == .replace then setBody h to (.sub [] ta0) else h
+      match mergeDictH n cf pol h0 to fd with
+      | none => none
+      | some h1 =>
+        if pol == .merge then mergeIdxH n cf pol h1 to 0 fa else mergeListCopy cf pol h1 to fa
+    | _, _ => none
+termination_by structural n => n
+/-- the named settings of the source, one after the other -/
+def mergeDictH : Nat → Nat → ArrPol → Heap → Id → List (String × Id) → Option Heap
+  | 0, _, _, _, _, _ => none
+  | _+1, _, _, h, _, [] => some h
+  | n+1, cf, pol, h, to, (k, v) :: r =>
+    match getSub h to, h[v]? with
+    | some (_, _, td, ta), some vn =>
+      let store : Option Heap :=
+        match cpy cf h v (some to) k with
+        | none => none
+        | some (h1, c) => mergeDictH n cf pol (setBody h1 to (.sub (dictSet td k c) ta)) to r
+      match (td.find? (·.1 == k)).map (·.2) with
+      | none => store
+      | some o =>
+        match h[o]? with
+        | none => none
+        | some on =>
+          if isNilNode on || isNilNode vn then none
+          else if isSubNode on && isSubNode vn then
+            match mergeH n cf pol h o v with
+            | none => none
+            | some h1 => mergeDictH n cf pol h1 to r
+          else store
+    | _, _ => none
+termination_by structural n => n
+/-- mergeConfigMergeArr: index-wise while the destination has an element, the rest is appended -/
+def mergeIdxH : Nat → Nat → ArrPol → Heap → Id → Nat → List Id → Option Heap
+  | 0, _, _, _, _, _, _ => none
+  | _+1, _, _, h, _, _, [] => some h
+  | n+1, cf, pol, h, to, i, v :: r =>
+    match getSub h to, h[v]? with
+    | some (_, _, td, ta), some vn =>
+      match ta[i]? with
+      | none => appendCpy cf h to (v :: r)
+      | some o =>
+        let store : Option Heap :=
+          match cpy cf h v (some to) (idxName i) with
+          | none => none
+          | some (h1, c) => mergeIdxH n cf pol (setBody h1 to (.sub td (ta.set i c))) to (i + 1) r
+        match h[o]? with
+        | none => none
+        | some on =>
+          if isNilNode on || isNilNode vn then none
+          else if isSubNode on && isSubNode vn then
+            match mergeH n cf pol h o v with
+            | none => none
+            | some h1 => mergeIdxH n cf pol h1 to (i + 1) r
+          else store
+    | _, _ => none
+termination_by structural n => n
+end
 
 end Ucfg.Forest
